@@ -272,6 +272,10 @@ func (e *Enc) allowedWrite(it frameItem) Term {
 	if it.KeySort == "Int" && it.Key != "" {
 		alts = append(alts, e.isFresh(it.Key))
 	}
+	if it.KeySort == "Iface" && it.Key != "" {
+		// ghost state of an interface value whose payload was allocated in this activation
+		alts = append(alts, e.isFresh(sx("i-val", it.Key)))
+	}
 	if it.Lo != "" {
 		alts = append(alts, tLe(it.Hi, it.Lo)) // empty range
 	}
@@ -345,7 +349,7 @@ func (e *Enc) applyItems(items []frameItem) {
 
 func (e *Enc) havocAll() {
 	for _, n := range e.heapOrder {
-		if n == "$alloc" {
+		if n == "$alloc" || n == "$held" || strings.HasPrefix(n, "$defer") {
 			continue
 		}
 		e.cur.h[n] = e.fresh(n+"_havoc", e.heapSort[n])
@@ -396,6 +400,9 @@ func (e *Enc) assumeFrameSince(pre *State, mod []string) {
 		guard := tNot(tOr(excl...))
 		if ks == "Int" {
 			guard = tAnd(tLt("k!f", a0), tLe("0", "k!f"), guard)
+		}
+		if ks == "Iface" {
+			guard = tAnd(tLt("(i-val k!f)", a0), guard)
 		}
 		e.assume(fmt.Sprintf("(forall ((k!f %s)) (! (=> %s (= (select %s k!f) (select %s k!f))) :pattern ((select %s k!f))))", ks, guard, H, H0, H))
 		// ranges: outside the range the object is unchanged
@@ -468,6 +475,16 @@ func (e *Enc) execCall(v ssa.Value, c *ssa.CallCommon, in ssa.Instruction, guard
 		return
 	}
 	key, short, sig, sfn := calleeName(c)
+	if op, ok := isLockKey(key); ok {
+		e.applyAtsIn(in, "before call", short, in.Pos(), nil, nil)
+		if e.execLockOp(op, c, in) {
+			if v != nil {
+				e.vals[v] = Val{}
+			}
+			e.applyAtsIn(in, "call", short, in.Pos(), nil, nil)
+			return
+		}
+	}
 	ord := e.siteOrdinal(in, "call", short)
 	site := fmt.Sprintf("%s#%d", short, ord)
 	var args []Val
@@ -486,10 +503,20 @@ func (e *Enc) execCall(v ssa.Value, c *ssa.CallCommon, in ssa.Instruction, guard
 	if mc, ok := c.Value.(*ssa.MakeClosure); ok {
 		bindings = mc.Bindings
 	}
-	fc := e.W.C.Funcs[key]
-	if fc == nil && c.IsInvoke() {
-		// try the static receiver type
-		fc = e.W.C.Funcs["("+types.TypeString(c.Value.Type(), nil)+")."+c.Method.Name()]
+	var fc *FuncContract
+	if c.IsInvoke() {
+		// the static receiver type's own contract (e.g. hash.Hash.Write) wins over the declaring interface's
+		fc = e.W.C.Funcs[normalizeFnKey("("+types.TypeString(c.Value.Type(), nil)+")."+c.Method.Name())]
+	}
+	if fc == nil {
+		fc = e.W.C.Funcs[normalizeFnKey(key)]
+	}
+	e.atArgTypes = argTypes
+	e.atResTypes = nil
+	if sig != nil {
+		for i := 0; i < sig.Results().Len(); i++ {
+			e.atResTypes = append(e.atResTypes, sig.Results().At(i).Type())
+		}
 	}
 	e.applyAtsIn(in, "before call", short, in.Pos(), args, nil)
 	var results []Val
@@ -517,7 +544,9 @@ func (e *Enc) execCall(v ssa.Value, c *ssa.CallCommon, in ssa.Instruction, guard
 			}
 		}
 	}
+	e.atArgTypes = argTypes
 	e.applyAtsIn(in, "call", short, in.Pos(), args, results)
+	e.atArgTypes, e.atResTypes = nil, nil
 }
 
 func (e *Enc) freshResults(sig *types.Signature, hint string) []Val {
@@ -655,7 +684,14 @@ func (e *Enc) applyContract(fc *FuncContract, key, site string, sig *types.Signa
 		e.used["assumed contract: "+fc.Key] = true
 	}
 	env := e.calleeEnv(fc, sig, sfn, c, args, argTypes, bindings)
-	for i, cl := range fc.Requires {
+	requires, ensures := fc.Requires, fc.Ensures
+	crossMode := (fc.Mode == "bv") != e.bv
+	if fc.Mode == "bv" && !e.bv {
+		// caller and callee use different integer modes: only the int-view clauses can be evaluated here
+		requires, ensures = fc.IntRequires, fc.IntEnsures
+		e.used["integer-mode bridge: int-view contract of "+fc.Key+" is assumed to be the image of its bit-vector contract"] = true
+	}
+	for i, cl := range requires {
 		o := e.oblige("pre", fmt.Sprintf("pre:%s.%d", site, i), env.evalBool(cl.Expr), in.Pos(), cl.Src)
 		o.setLabel(cl.Label)
 	}
@@ -697,8 +733,18 @@ func (e *Enc) applyContract(fc *FuncContract, key, site string, sig *types.Signa
 		t := sig.Results().At(i).Type()
 		penv.vars[n] = SV{T: results[i].T, Sort: e.sortOf(t), GT: t}
 	}
-	for _, cl := range fc.Ensures {
-		e.assume(penv.evalBool(cl.Expr))
+	for _, cl := range ensures {
+		t, ok := penv.tryEvalBool(cl.Expr, crossMode)
+		if !ok && crossMode {
+			e.used["postcondition of "+fc.Key+" could not be evaluated in bit-vector mode and is not used: "+cl.Src] = true
+			continue
+		}
+		if !ok {
+			// the clause mentions state private to the callee (its function-level ghosts): callers learn nothing from it
+			e.used["postcondition of "+fc.Key+" not visible to callers (mentions callee-local ghosts): "+cl.Src] = true
+			continue
+		}
+		e.assume(t)
 	}
 	return results
 }
@@ -732,15 +778,27 @@ func (e *Enc) applyAtsIn(in ssa.Instruction, kind, name string, pos token.Pos, a
 		env.atBlock = e.curBlock
 		env.atInstr = true
 		for i, a := range args {
-			env.vars[fmt.Sprintf("arg%d", i)] = SV{T: a.T, Sort: e.declOfTerm(a.T)}
+			sv := SV{T: a.T, Sort: e.declOfTerm(a.T)}
+			if i < len(e.atArgTypes) {
+				sv.GT = e.atArgTypes[i]
+				sv.Sort = e.sortOf(sv.GT)
+			}
+			env.vars[fmt.Sprintf("arg%d", i)] = sv
 		}
 		for i, r := range results {
-			env.vars[fmt.Sprintf("res%d", i)] = SV{T: r.T, Sort: e.declOfTerm(r.T)}
+			sv := SV{T: r.T, Sort: e.declOfTerm(r.T)}
+			if i < len(e.atResTypes) {
+				sv.GT = e.atResTypes[i]
+				sv.Sort = e.sortOf(sv.GT)
+			}
+			env.vars[fmt.Sprintf("res%d", i)] = sv
 		}
 		for k, v := range e.atVars {
 			env.vars[k] = v
 		}
 		switch at.Kind {
+		case "label":
+			e.labels[at.Target] = e.cur.clone()
 		case "assert":
 			o := e.oblige("assert", fmt.Sprintf("at:%s.%d", at.Anchor, ai), env.evalBool(at.Clause.Expr), pos, at.Clause.Src)
 			o.setLabel(at.Clause.Label)
@@ -799,6 +857,8 @@ func (e *Enc) execPanic(in *ssa.Panic) {
 
 func (e *Enc) execReturn(in *ssa.Return) {
 	ord := e.siteOrdinal(in, "return", "")
+	e.retPoints = append(e.retPoints, retPoint{reach: e.curReach, nAsm: len(e.asm)})
+	e.locksAtReturn(in)
 	if e.fc == nil {
 		return
 	}
@@ -840,7 +900,6 @@ func (e *Enc) execReturn(in *ssa.Return) {
 		o.setMeta(cl.Label, token.Position{Filename: cl.File, Line: cl.Line})
 	}
 	e.returns++
-	e.retPoints = append(e.retPoints, retPoint{reach: e.curReach, nAsm: len(e.asm)})
 }
 
 // entrySpecs assumes the preconditions.
@@ -901,7 +960,7 @@ func (e *Enc) execGo(in *ssa.Go) {
 	// havocked unless it has a contract with a modifies clause (then only that).
 	key, short, _, _ := calleeName(in.Common())
 	e.applyAts("before go", "", in.Pos(), nil, nil)
-	fc := e.W.C.Funcs[key]
+	fc := e.W.C.Funcs[normalizeFnKey(key)]
 	if fc != nil && fc.HasModifies && fc.Opts["go"] == "frame-only" {
 		e.used["go "+key+": concurrent effect limited to its modifies clause (contract)"] = true
 	} else if e.fc != nil && e.fc.Opts["go"] == "ignore" {
